@@ -197,7 +197,7 @@ class Gen:
                "def deco(f):", "    @functools.wraps(f)", "    def wrapper(*a, **kw):", "        return f(*a, **kw)", "    return wrapper", "", "",
                "def _sink(x):", "    return None", "", ""]
         if self.values:
-            out[:0] = ["from collections import defaultdict", "from vf.fixtures.hier import *  # noqa", "NoneType = type(None)"]
+            out[:0] = ["from collections import defaultdict, deque, OrderedDict", "from vf.fixtures.hier import *  # noqa", "NoneType = type(None)"]
         labels = {"Suspend.__await__": "must", "deco": "must", "deco.<locals>.wrapper": "may"}
         ncls = rng.choice([1, 2, 3])
         classes = {}  # name -> dict(lines, base, init)
